@@ -237,6 +237,27 @@ def g_set_property(w, rng, st):
         return None
     kind, ref, nid = t
     names = [n for n in settable(kind) if n not in NOT_GENERATED]
+    if rng.random() < 0.3:
+        # overwrite something that already has a value with a DIFFERENT one (a raised flag lowered again, a list
+        # made shorter, ...): reading back must give the new value, not a blend with the old
+        has = []
+        for tt in element_targets(st):
+            for n in settable(tt[0]):
+                if n in NOT_GENERATED:
+                    continue
+                g = 'StitchNode' if n == 'stitch_node' else SLIVER_TO_GRAPH.get(n)
+                cur = st.n[tt[2]].get(g) if g else None
+                if cur is not None and not (n == 'stitch_node' and cur != 'true'):
+                    has.append((tt, n))
+        if has:
+            (kind, ref, nid), name = rng.choice(has)
+            for _ in range(4):
+                v = False if name == 'stitch_node' else gen_value(rng, name, kind)
+                if name == 'stitch_node' and kind == 'service' and 'stitch_node_on_service' in w.avoid:
+                    break
+                if v is not None:
+                    w.stats.inc('probe.set_property_overwrites')
+                    return {'kind': kind, 'ref': ref, 'name': name, 'val': v}
     for _ in range(6):
         name = rng.choice(names)
         v = gen_value(rng, name, kind)
